@@ -14,8 +14,8 @@ for s in sorted(os.listdir('/verif/seeded')):
     owner=s.split('-')[0]
     r=res.get(s,{})
     caught=[c for c,(rc,_) in sorted(r.items()) if rc=='1']
-    own='yes' if owner in caught else ('—' if not r else 'NO')
-    others=' '.join(c for c in caught if c!=owner)
+    own='yes' if owner in caught else ('yes (thorough tier)' if r.get(owner+':thorough',('0',''))[0]=='1' else ('—' if not r else 'NO'))
+    others=' '.join(c for c in caught if c!=owner and ':' not in c)
     key=''
     if owner in r and r[owner][0]=='1':
         key=r[owner][1].split(': ',1)[-1].split(' ')[0]
@@ -25,6 +25,6 @@ for s in sorted(os.listdir('/verif/seeded')):
 print("| seed | change (one line, from the author's meta.json) | caught by its own check | also caught by | first new key of the own check |")
 print("|---|---|---|---|---|")
 print('\n'.join(rows))
-n=len(rows); c=sum(1 for r in rows if '| yes |' in r)
+n=len(rows); c=sum(1 for r in rows if '| yes' in r)
 print(f"\n{c} of {n} seeded changes are reported by the check of the property they were written against"
       f" (quick tier, each as an unlisted key next to the listed known findings of that property).")
